@@ -10,6 +10,13 @@ REPO=${VERIF_REPO:-/repo}
 mkdir -p bin evidence replays
 RUN=bin/run.$$
 mkdir -p $RUN
+if [ "$REPO" != "/repo" ]; then
+  # checks against a scratch copy of the repository (pseedrun.sh): same module, other replace target
+  sed "s#^replace github.com/go-fed/activity => .*#replace github.com/go-fed/activity => $REPO#" go.mod > $RUN/go.mod
+  cp go.sum $RUN/go.sum
+  export GOFLAGS="$GOFLAGS -modfile=$(pwd)/$RUN/go.mod"
+  export VERIF_REPO="$REPO"
+fi
 trap 'rm -rf "$RUN" ".overlay.$$"' EXIT
 build() { # build <output> <go build args...>
   local out=$1; shift
